@@ -481,6 +481,11 @@ func refQuote(f *Flow, ip ipView, body []byte, at int64, eqType uint8) Outcome {
 			return rej("quoted src %s:%d", q.src, sp)
 		}
 		if q.proto != 17 {
+			if f.V.V6 {
+				// the IPv6 per-probe identifier is the payload length of the UDP probe: a quote of another
+				// protocol's datagram (another flow that happens to share port numbers and length) carries no such identifier
+				return rej("quoted next header %d is not UDP", q.proto)
+			}
 			undecided = true
 		}
 		var hit *Probe
